@@ -16,7 +16,7 @@ import (
 	"github.com/ozontech/file.d/fd"
 	"github.com/ozontech/file.d/metric"
 	"github.com/ozontech/file.d/pipeline"
-	_ "github.com/ozontech/file.d/plugin/action/throttle"
+	"github.com/ozontech/file.d/plugin/action/throttle"
 	"github.com/ozontech/file.d/zz_verifharness/core"
 	"github.com/ozontech/file.d/zz_verifharness/h1pipe"
 	insaneJSON "github.com/ozontech/insane-json"
@@ -188,6 +188,7 @@ func (h *H) Run(cc core.Cfg, sim *simrt.Sim) *core.Outcome {
 	o := &core.Outcome{NonTrivial: map[string]bool{}, Probes: map[string]int{}}
 	var all []*obs
 	verdict := false
+	defer throttle.VerifForgetAll() // package-level limiter table (see overlay)
 	reason := sim.Run(func() {
 		seq++
 		name := fmt.Sprintf("h6_%d", seq)
